@@ -209,3 +209,111 @@ def aggregate(results):
     agg["samples"] = samples
     agg["exhaustive"] = agg["configs_capped"] == 0
     return agg
+
+
+def explore_comb(build, make_ref, cfg, tier, seed, *, letter_cap=40000, sim_budget=None):
+    """Combinational (single-state) components with wide, independent input groups: every checked
+    output is enumerated over the UNION of its structural input support in the netlist and the
+    support its reference declares; all other inputs are held at 0.  ``make_ref(cfg, h, comp)``
+    returns an object with
+        declared : {probe: set(input names)}
+        alphabet(name, wide) -> list of values
+        expected(letter_tuple) -> {probe: value or None}
+    """
+    import itertools
+    t0 = time.time()
+    h, early = build_or_classify(build, cfg)
+    if h is None:
+        return early
+    try:
+        comp = compile_harness(h)
+    except ToolError as e:
+        raise ToolFailure(f"netlist: {e}")
+    except Exception as e:
+        if is_refusal(e):
+            return dict(refused=True, refusal=describe_exc(e))
+        d = describe_exc(e)
+        return dict(violation=dict(kind="internal_error", err=d,
+                                   signature=dict(kind="internal_error", type=d["type"], where=d["where"])))
+    if comp.n_flops or comp.n_mems:
+        # state exists in the cone: the caller should have used explore_hw
+        raise ToolFailure(f"explore_comb: design has state in the cone of the probes (cfg={cfg!r})")
+    ref = make_ref(cfg, h, comp)
+    groups = {}
+    for p in comp.probe_names:
+        sup = set(comp.support_of([p])) | set(ref.declared.get(p, ()))
+        groups.setdefault(tuple(n for n in comp.in_names if n in sup), []).append(p)
+    n_in = len(comp.in_names)
+    evals = 0
+    thinned = 0
+    sampled = []
+    rng = random.Random(seed * 7919 + zlib.crc32(repr(cfg).encode()))
+    outcomes = set()
+    for sup, probes in sorted(groups.items()):
+        idx = [comp.in_index[n] for n in sup]
+        doms = [ref.alphabet(n, True) for n in sup]
+        size = 1
+        for d in doms:
+            size *= len(d)
+        if size > letter_cap:
+            doms = [ref.alphabet(n, False) for n in sup]
+            thinned += 1
+        pidx = [comp.probe_index[p] for p in probes]
+        for vals in itertools.product(*doms):
+            letter = [0] * n_in
+            for i, v in zip(idx, vals):
+                letter[i] = v
+            letter = tuple(letter)
+            outs, _ = comp.step(comp.init, letter)
+            exp = ref.expected(letter)
+            evals += 1
+            if len(outcomes) < 20000:
+                outcomes.add(tuple(outs[i] for i in pidx))
+            for p, i in zip(probes, pidx):
+                e = exp.get(p)
+                if e is not None and outs[i] != e:
+                    # re-derive in the simulator
+                    got = simulate(build(cfg), [letter], probe_names=set(comp.probe_names))[0]
+                    if got[i] != outs[i]:
+                        raise ToolFailure(f"compiled netlist and amaranth.sim disagree on {p} (cfg={cfg!r})")
+                    err = dict(msg=f"{p}={outs[i]:#x} expected {e:#x}", inputs={n: letter[comp.in_index[n]] for n in comp.in_names if letter[comp.in_index[n]]},
+                               signature=dict(kind="oracle", what=ref.what(p) if hasattr(ref, "what") else p))
+                    return dict(states=1, transitions=evals, violation=dict(
+                        kind="comb", err=err, trace=[list(letter)], inputs=comp.in_names, probes=comp.probe_names,
+                        signature=err["signature"]))
+            if rng.random() < 0.02 and len(sampled) < 400:
+                sampled.append(letter)
+    # bind to the implementation: the sampled letters as ONE trace through amaranth.sim
+    cycles = 0
+    if sampled:
+        got = simulate(build(cfg), sampled, probe_names=set(comp.probe_names))
+        for letter, g in zip(sampled, got):
+            outs, _ = comp.step(comp.init, letter)
+            if tuple(outs) != tuple(g):
+                diff = [(n, a, b) for n, a, b in zip(comp.probe_names, outs, g) if a != b]
+                raise ToolFailure(f"compiled netlist and amaranth.sim disagree: {diff} cfg={cfg!r} letter={letter!r}")
+        cycles = len(sampled)
+    res = dict(states=1, transitions=evals, max_depth=1, capped=None, outcomes=len(outcomes),
+               traces_validated=1 if sampled else 0, cycles_validated=cycles, nodes_on_validated_traces=1,
+               support_groups=len(groups), groups_thinned=thinned, flops_in_cone=0, flops_total=comp.n_flops_total)
+    if sampled:
+        l = sampled[0]
+        outs, _ = comp.step(comp.init, l)
+        res["sample"] = dict(cfg=cfg, trace=[dict(inp=dict(zip(comp.in_names, l)), out=dict(zip(comp.probe_names, outs)))])
+    res["t_total"] = round(time.time() - t0, 2)
+    return res
+
+
+def replay_comb(build, make_ref, cfg, trace):
+    h2 = build(cfg)
+    got = simulate(h2, [tuple(l) for l in trace])
+    h3 = build(cfg)
+    comp = compile_harness(h3)
+    ref = make_ref(cfg, h3, comp)
+    for t, (letter, g) in enumerate(zip(trace, got)):
+        exp = ref.expected(tuple(letter))
+        for p, i in comp.probe_index.items():
+            e = exp.get(p)
+            if e is not None and g[i] != e:
+                return dict(msg=f"{p}={g[i]:#x} expected {e:#x}"), t
+    return None, None
